@@ -54,7 +54,7 @@ func validateJSONPatches(patches []byte) error {
 
 	for _, p := range jsonPatches {
 		pathMsg, ok := p["path"]
-		if !ok {
+		if !ok || pathMsg == nil {
 			return fmt.Errorf("%s: path not found", patch.JSONPatch)
 		}
 
